@@ -28,10 +28,16 @@ _MECARD_ESCAPE = {
 }
 
 
+_VCARD_NEWLINE = {
+    ord('\n'): '\\n',
+    ord('\r'): None,
+}
+
 _VCARD_ESCAPE = {
     ord(','): '\\,',
     ord(';'): '\\;',
 }
+_VCARD_ESCAPE.update(_VCARD_NEWLINE)
 
 
 def _escape_mecard(s):
@@ -223,7 +229,7 @@ def make_mecard(name, reading=None, email=None, phone=None, videophone=None,
                                           country=country))
 
 
-_looks_like_datetime = re.compile(r'^\d{4}-\d{2}-\d{2}(?:T\d{2}:\d{2}:\d{2}(?:(?:-?\d{2}:\d{2})|Z)?)?$').match
+_looks_like_datetime = re.compile(r'^\d{4}-\d{2}-\d{2}(?:T\d{2}:\d{2}:\d{2}(?:(?:-?\d{2}:\d{2})|Z)?)?\Z').match
 
 
 def make_vcard_data(name, displayname, email=None, phone=None, fax=None,
@@ -301,7 +307,7 @@ def make_vcard_data(name, displayname, email=None, phone=None, fax=None,
 
     escape = _escape_vcard
     data = ['BEGIN:VCARD', 'VERSION:3.0',
-            f'N:{name}',
+            f'N:{name.translate(_VCARD_NEWLINE)}',
             f'FN:{escape(displayname)}']
     if org:
         data.append(f'ORG:{escape(org)}')
